@@ -32,6 +32,9 @@ CLAIMED["C13"]=("Bounded symbolic execution of the real Obj#try / Either*#fmap /
 CLAIMED["C14"]=("Bounded symbolic execution of the real evalIter / iterNew / iterNext / recur / guarded yield / Iter#_iter and the list-chain and A paths over iterators, through parsed programs: histories of 1..2 (thorough 1..3) solver-chosen operations over two iterators made from one literal whose limit, stride and start values are symbolic; on every feasible path z3 discharges agreement with a per-iterator state machine (value per next, StopIterErr exactly and persistently when the guard is false, chains visit exactly the remaining values without advancing the iterator, iterators never share progress).",
         TRUST,
         "SMT-decided bounded symbolic execution of go/ssa (z3, bit-vectors); symbolic operation history")
+CLAIMED["C05"]=("Bounded symbolic execution of the real FindPropAlongProtos/FindPropOwner, evalProp/_missing fallback, call dispatch, symbol indexing, bear/proto/which/keys built-ins and the native bro/ancestors/kindOf? through parsed programs: prototype forests of 2..3 objects whose shape (parent, bear vs bro, which of x/y/_missing each object defines and as what kind) is chosen by the solver; on every feasible shape z3 discharges agreement of o.name(args), o['name], which, proto, ancestors, kindOf? and keys with the forest model (first definer, else first _missing called with receiver+name+args, else NoPropErr).",
+        TRUST,
+        "SMT-decided bounded symbolic execution of go/ssa (z3); forest shapes enumerated by solver-decided choices")
 NA={
 }
 DEFAULT_NA="check under construction in this session (engine exists; harness not yet registered)"
